@@ -17,7 +17,7 @@ use crate::engine::{explore, guarded, hex, show, validate_traces, Limits, Report
 use crate::refmodel::head;
 use crate::refmodel::reqvalid::{self, ReqFacts};
 
-pub const RULE: &str = "requests: methods {GET,HEAD,POST,PUT,DELETE,OPTIONS} x versions {1.0,1.1} x original header lists of length 0..=1 (thorough 0..=2) x caller-added lists of length 0..=2 over the pool {host, content-length: 3, transfer-encoding: chunked, transfer-encoding: Chunked (mixed case), x-a: 1, x-a: 2 (repeated name), x-bin: <0x80 0xff>, cookie, connection: close} (at most one of Content-Length / Transfer-Encoding) x send-body-despite-method {no,yes}, URIs with and without path/query/port; 12 URI shapes (empty path with query, bare '?', trailing '?', '//', userinfo, upper-case host + default port, fragment, IP literal, percent-encoded delimiters, path parameters) x {GET,POST,OPTIONS} x versions x with/without caller-added Host; long requests with n added (0,1,2,59,60; thorough every n in 0..=60) and m in {0,1,5} original headers; flows at redirect depth 1..3 (states of a redirect-chain graph from HTTP/1.1 and HTTP/1.0 originals, with 0/1 added headers); requests the validity model accepts (the rejected ones of the menu are written five times, with headers_map() in between, and must never emit a byte); front ends Flow::<SendRequest>, Call::<WithoutBody>, Call::<WithBody>. Per request the COMPLETE graph of the writer: from every reachable state write(out) for EVERY out in 0..=|head|+1, and again in the completed state; on flows also the accessors method / uri / version / headers_map (which runs the request analysis early) as an action in every state. plus interleaving: for all 25 ordered pairs of five requests, flow 1 makes one write with every buffer size 0..=|head|, flow 2 writes its whole head, flow 1 finishes - both heads must equal what each flow writes alone. distinct = distinct (request, front end) graphs";
+pub const RULE: &str = "requests: methods {GET,HEAD,POST,PUT,DELETE,OPTIONS} x versions {1.0,1.1} plus {PATCH,CONNECT,TRACE} on HTTP/1.1 x original header lists of length 0..=1 (thorough 0..=2) x caller-added lists of length 0..=2 over the pool {host, content-length: 3, transfer-encoding: chunked, transfer-encoding: Chunked (mixed case), x-a: 1, x-a: 2 (repeated name), x-bin: <0x80 0xff>, cookie, connection: close} (at most one of Content-Length / Transfer-Encoding) x send-body-despite-method {no,yes}, URIs with and without path/query/port; 12 URI shapes (empty path with query, bare '?', trailing '?', '//', userinfo, upper-case host + default port, fragment, IP literal, percent-encoded delimiters, path parameters) x {GET,POST,OPTIONS} x versions x with/without caller-added Host; long requests with n added (0,1,2,59,60; thorough every n in 0..=60) and m in {0,1,5} original headers; flows at redirect depth 1..3 (states of a redirect-chain graph from HTTP/1.1 and HTTP/1.0 originals, with 0/1 added headers incl. a framing header of the caller's own); requests the validity model accepts (the rejected ones of the menu are written five times, with headers_map() in between, and must never emit a byte); front ends Flow::<SendRequest>, Call::<WithoutBody>, Call::<WithBody>. Per request the COMPLETE graph of the writer: from every reachable state write(out) for EVERY out in 0..=|head|+1, and again in the completed state; on flows also the accessors method / uri / version / headers_map (which runs the request analysis early) as an action in every state. plus interleaving: for all 25 ordered pairs of five requests, flow 1 makes one write with every buffer size 0..=|head|, flow 2 writes its whole head, flow 1 finishes - both heads must equal what each flow writes alone. distinct = distinct (request, front end) graphs";
 
 const URI_SHAPES: [&str; 12] = ["http://a.test?x=1", "http://a.test?", "http://a.test/p?", "http://a.test/?", "http://a.test//d", "http://u:pw@a.test/p", "http://A.TEST:80/P", "http://a.test/p#frag", "http://[::1]:8080/p", "http://a.test/%3F?%20&a=b?c", "https://a.test", "http://a.test/p;v=1/q"];
 
@@ -476,9 +476,7 @@ fn lists(max_len: usize) -> Vec<Vec<usize>> {
 
 fn valid(cfg: &ReqCfg, front: &str) -> bool {
     let eff: Vec<&(String, Vec<u8>)> = cfg.added.iter().chain(cfg.orig.iter()).collect();
-    let hosts: Vec<&[u8]> = eff.iter().filter(|h| h.0 == "host").map(|h| &h.1[..]).collect();
     let cls: Vec<&[u8]> = eff.iter().filter(|h| h.0 == "content-length").map(|h| &h.1[..]).collect();
-    let te = eff.iter().any(|h| h.0 == "transfer-encoding");
     let n_te = eff.iter().filter(|h| h.0 == "transfer-encoding").count();
     if n_te + cls.len() > 1 {
         return false; // at most one framing header is supplied (quantifier)
@@ -495,9 +493,9 @@ fn must_be_refused(cfg: &ReqCfg) -> bool {
 
 fn verdict(cfg: &ReqCfg, front: &str) -> bool {
     let eff: Vec<&(String, Vec<u8>)> = cfg.added.iter().chain(cfg.orig.iter()).collect();
-    let hosts: Vec<&[u8]> = eff.iter().filter(|h| h.0 == "host").map(|h| &h.1[..]).collect();
     let cls: Vec<&[u8]> = eff.iter().filter(|h| h.0 == "content-length").map(|h| &h.1[..]).collect();
     let te = eff.iter().any(|h| h.0 == "transfer-encoding");
+    let hosts: Vec<&[u8]> = eff.iter().filter(|h| h.0 == "host").map(|h| &h.1[..]).collect();
     reqvalid::check(&ReqFacts { version: &cfg.version, method: &cfg.method, hosts, content_lengths: cls, te_chunked: te, despite_method: cfg.despite_method, call_with_body: match front { "flow" => None, "call-with-body" => Some(true), _ => Some(false) } }).is_ok()
 }
 
@@ -514,8 +512,11 @@ fn gen_requests(tier: Tier) -> Vec<(ReqCfg, &'static str)> {
     let olists = lists(if tier.thorough() { 2 } else { 1 });
     let alists = lists(2);
     let uris = ["http://a.test/p?q=1", "http://a.test", "https://a.test:8443/x/y"];
-    for m in ["GET", "HEAD", "POST", "PUT", "DELETE", "OPTIONS"] {
+    for m in ["GET", "HEAD", "POST", "PUT", "DELETE", "OPTIONS", "PATCH", "CONNECT", "TRACE"] {
         for ver in ["1.0", "1.1"] {
+            if ver == "1.0" && matches!(m, "PATCH" | "CONNECT" | "TRACE") {
+                continue; // the three rarer methods once, on HTTP/1.1
+            }
             for (ui, uri) in uris.iter().enumerate() {
                 for ol in &olists {
                     for al in &alists {
@@ -547,6 +548,19 @@ fn gen_requests(tier: Tier) -> Vec<(ReqCfg, &'static str)> {
                     }
                 }
             }
+        }
+    }
+    // repeated names among the ORIGINAL headers (one map entry, several lines; also next to other names)
+    for (names, ver) in [(vec![("accept", "a/1"), ("accept", "a/2"), ("x-trace", "t")], "1.1"), (vec![("x-trace", "t"), ("accept", "a/1"), ("accept", "a/2"), ("accept", "a/3")], "1.1"), (vec![("cookie", "a=1"), ("x-m", "1"), ("cookie", "b=2")], "1.0")] {
+        for m in ["GET", "POST"] {
+            let mut c = ReqCfg::new(m, ver, "http://a.test/p");
+            for (k, v) in &names {
+                c = c.orig(k, v);
+            }
+            out.push((c.clone(), "flow"));
+            out.push((c.clone(), if m == "POST" { "call-with-body" } else { "call-without-body" }));
+            c.added.push(("x-added".into(), b"1".to_vec()));
+            out.push((c, "flow"));
         }
     }
     // URI shapes: empty path with/without query, bare query delimiter, double slash, userinfo,
@@ -622,7 +636,7 @@ fn redirected() -> Vec<(String, Spec, Box<dyn Fn() -> W + Send + Sync>)> {
             if st.hop == 0 || st.flow.is_none() {
                 continue;
             }
-            for add in [None, Some(("cookie", "k=NEW")), Some(("x-new", "1"))] {
+            for add in [None, Some(("cookie", "k=NEW")), Some(("x-new", "1")), Some(("content-length", "5")), Some(("transfer-encoding", "chunked"))] {
                 let flow = st.flow.clone().unwrap();
                 let suppressed = |name: &str| name == "cookie" || name == "content-length" || (name == "authorization" && !st.auth_may);
                 let originals: Vec<(String, Vec<u8>)> = cfg.req.orig.iter().filter(|(k, _)| !suppressed(k)).cloned().collect();
@@ -633,12 +647,21 @@ fn redirected() -> Vec<(String, Spec, Box<dyn Fn() -> W + Send + Sync>)> {
                     Some(qq) => format!("{}?{}", path, qq),
                     None => path,
                 };
-                let mut spec = spec_from(&st.method, ver, target, comps.host.clone(), added.clone(), originals, false, "flow");
+                // a framing header of the caller's own goes with send_body_despite_method() where the method takes no body
+                let framing_added = add.map(|(k, _)| k == "content-length" || k == "transfer-encoding").unwrap_or(false);
+                let despite = framing_added && !reqvalid::needs_body(&st.method);
+                if framing_added && reqvalid::needs_body(&st.method) && originals.iter().any(|(k, _)| k == "transfer-encoding" || k == "content-length") {
+                    continue; // at most one framing header (quantifier)
+                }
+                let mut spec = spec_from(&st.method, ver, target, comps.host.clone(), added.clone(), originals, despite, "flow");
                 spec.auth_optional = st.auth_may;
                 let label = format!("redirect depth {} of an HTTP/{} request to {} ({}), added {:?}", st.hop, ver, crate::refmodel::uri3986::to_string(&st.cur), st.method, add);
                 let added2 = added.clone();
                 out.push((label, spec, Box::new(move || {
                     let mut f = flow.clone();
+                    if despite {
+                        f.send_body_despite_method();
+                    }
                     for (k, v) in &added2 {
                         f.header(k.as_str(), &v[..]).expect("header");
                     }
